@@ -135,10 +135,15 @@ func (a Tuple) M__iadd__(other Object) (Object, error) {
 func (l Tuple) M__mul__(other Object) (Object, error) {
 	if b, ok := convertToInt(other); ok {
 		m := len(l)
-		n := int(b) * m
-		if n < 0 {
-			n = 0
+		if b <= 0 || m == 0 {
+			// nothing to repeat (and int(b) * m may not overflow)
+			return Tuple{}, nil
 		}
+		const maxInt = int(^uint(0) >> 1)
+		if int(b) > maxInt/m {
+			return nil, ExceptionNewf(MemoryError, "repeated tuple is too long")
+		}
+		n := int(b) * m
 		newTuple := make(Tuple, n)
 		for i := 0; i < n; i += m {
 			copy(newTuple[i:i+m], l)
